@@ -54,6 +54,9 @@ type Cfg struct {
 	StaleBias  float64  // probability that a settlement presents a non-fresh lease
 	Transports []string // subset of direct, http, grpc
 	Operator   bool     // cancel / requeue by id
+	// SecondHandle (SQLite): operator calls go through a second store handle on the
+	// same database file, as `hookaido mcp` works next to a running server.
+	SecondHandle bool
 	DequeuePct int      // share of dequeue operations (default 38)
 	Settle     []Kind   // settlement mix (default: ack x2, nack x2, extend, dead)
 	Label      string
@@ -68,6 +71,7 @@ type World struct {
 	h         *vlib.Handle
 	clock     *vlib.VClock
 	pull      *pullapi.Server
+	opStore   queue.Store // store the operator calls use (second handle or h.Store)
 	grpcC     workerapipb.WorkerServiceClient
 	closers   []func()
 	tick      atomic.Int64
@@ -96,6 +100,15 @@ func NewWorld(c *vlib.Ctx, cfg Cfg) (*World, error) {
 		return nil, err
 	}
 	w.h = h
+	w.opStore = h.Store
+	if cfg.SecondHandle && cfg.Backend == "sqlite" {
+		st2, err := h.SecondHandle()
+		if err != nil {
+			return nil, err
+		}
+		w.opStore = st2
+		w.closers = append(w.closers, func() { _ = st2.Close() })
+	}
 	w.pull = pullapi.NewServer(h.Store)
 	w.pull.ResolveRoute = func(ep string) (string, bool) {
 		if ep == endpoint {
@@ -537,11 +550,11 @@ func (w *World) clientPhase(id int, r *vlib.Rand, held *[]string) {
 			var err error
 			if kind == EvCancel {
 				var resp queue.MessageCancelResponse
-				resp, err = w.h.Store.CancelMessages(queue.MessageCancelRequest{IDs: []string{msg}})
+				resp, err = w.opStore.CancelMessages(queue.MessageCancelRequest{IDs: []string{msg}})
 				n = resp.Canceled
 			} else {
 				var resp queue.MessageRequeueResponse
-				resp, err = w.h.Store.RequeueMessages(queue.MessageRequeueRequest{IDs: []string{msg}})
+				resp, err = w.opStore.RequeueMessages(queue.MessageRequeueRequest{IDs: []string{msg}})
 				n = resp.Requeued
 			}
 			ret := w.now()
